@@ -67,6 +67,8 @@ def instantiate_acos(formulas):
                 z3.Implies(z3.And(x > 0, 4 * x * x == 3), a == pi / 6),
                 z3.Implies(z3.And(x < 0, 4 * x * x == 3), a == 5 * pi / 6),
                 z3.Implies(x > 0, a < pi / 2), z3.Implies(x < 0, a > pi / 2)]
+    c0 = sc.Ctx.cur
+    double = bool(c0 is not None and c0.memo.get("angle_values")) and len(apps) <= 12
     for i in range(len(apps)):
         for j in range(i + 1, len(apps)):
             a, b = apps[i], apps[j]
@@ -75,6 +77,12 @@ def instantiate_acos(formulas):
             out += [z3.Implies(z3.And(inr, x < y), a > b),
                     z3.Implies(z3.And(inr, x > y), a < b),
                     z3.Implies(z3.And(inr, x == -y), a == pi - b)]
+            if double:
+                # acos(2x^2 - 1) = 2 acos(x) on [0, 1], = 2 pi - 2 acos(x) on [-1, 0]  (only on paths that turn an
+                # atan2 angle object into a number, e.g. a quaternion-based angle computation)
+                for (u, au), (v, av) in (((x, a), (y, b)), ((y, b), (x, a))):
+                    out += [z3.Implies(z3.And(v == 2 * u * u - 1, u >= 0, u <= 1), av == 2 * au),
+                            z3.Implies(z3.And(v == 2 * u * u - 1, u <= 0, u >= -1), av == 2 * pi - 2 * au)]
     return out
 
 
@@ -116,6 +124,15 @@ class Angle:
     def __deepcopy__(self, memo):
         return self
 
+    def to_real(self):
+        """the angle in (-pi, pi] as a number: acos*(c) for s >= 0, -acos*(c) for s < 0 (definition of atan2);
+        marks the path so that the double-angle facts of acos* are instantiated too"""
+        c0 = sc.Ctx.cur
+        if c0 is not None:
+            c0.memo["angle_values"] = True
+        cz, sz = toz(self.c), toz(self.s)
+        return SymReal(z3.If(sz >= 0, ACOS(cz), -ACOS(cz)))
+
     def __float__(self):
         raise NotEncodable("float(angle)")
 
@@ -132,6 +149,15 @@ class ScaledAngle:
 
     def __init__(self, angle, k):
         self.angle, self.k = angle, k
+
+    def __mul__(self, o):
+        if is_conc(o):
+            return 0 if o == 0 else ScaledAngle(self.angle, self.k * exact(o))
+        raise NotEncodable("scaled angle * %r" % (o,))
+    __rmul__ = __mul__
+
+    def to_real(self):
+        return self.angle.to_real() * self.k
 
     def __deepcopy__(self, memo):
         return self
